@@ -146,6 +146,10 @@ func buildTree(spec treeSpec, rec *runRecord) []*cobra.Command {
 // ValidArgsFunction) instead of carapace's (op ccomplete, C20 second half)
 var cobraSideMarkers bool
 
+// mixedMarkers: on every command, every second value flag is registered with cobra's API, the others
+// (and the positionals) with carapace's: both kinds must be served by both protocols
+var mixedMarkers bool
+
 func registerCobraMarkers(spec treeSpec, cmds []*cobra.Command) {
 	for i, cs := range spec.Cmds {
 		i := i
@@ -180,10 +184,20 @@ func registerMarkers(spec treeSpec, cmds []*cobra.Command) {
 		return
 	}
 	for i, cs := range spec.Cmds {
+		i := i
 		g := carapace.Gen(cmds[i])
 		am := carapace.ActionMap{}
+		nth := 0
 		for _, f := range cs.Flags {
 			if f.Kind != "bool" && f.Kind != "count" {
+				nth++
+				if mixedMarkers && nth%2 == 0 {
+					name := f.Name
+					_ = cmds[i].RegisterFlagCompletionFunc(name, func(cmd *cobra.Command, args []string, toComplete string) ([]string, cobra.ShellCompDirective) {
+						return []string{marker(i, "flag_"+name)}, cobra.ShellCompDirectiveNoFileComp
+					})
+					continue
+				}
 				am[f.Name] = carapace.ActionValues(marker(i, "flag_"+f.Name))
 			}
 		}
@@ -278,6 +292,7 @@ type parseIn struct {
 	Words     []string `json:"words"`     // the last one is the word under the cursor
 	HiddenEnv bool     `json:"hiddenEnv"` // CARAPACE_HIDDEN=1
 	CobraSide bool     `json:"cobraSide"` // ccomplete only: completions registered through cobra's API
+	Mixed     bool     `json:"mixed"`     // ccomplete only: every second value flag through cobra's API, the rest through carapace's
 }
 
 func runParse(raw json.RawMessage) interface{} {
